@@ -1,0 +1,39 @@
+//go:build verif
+
+package l1infotreesync
+
+import (
+	"context"
+	"database/sql"
+
+	"github.com/agglayer/aggkit/sync"
+	"github.com/agglayer/aggkit/tree"
+)
+
+// Hooks for the verification harness (build tag verif): thin wrappers, no logic of their own.
+
+// VerifProcessor gives the harness access to the unexported processor.
+type VerifProcessor struct{ P *processor }
+
+// VerifNewProcessor builds a processor on dbPath exactly as New does.
+func VerifNewProcessor(dbPath string) (*VerifProcessor, error) {
+	p, err := newProcessor(dbPath)
+	if err != nil {
+		return nil, err
+	}
+	return &VerifProcessor{P: p}, nil
+}
+
+func (v *VerifProcessor) ProcessBlock(ctx context.Context, b sync.Block) error {
+	return v.P.ProcessBlock(ctx, b)
+}
+func (v *VerifProcessor) Reorg(ctx context.Context, first uint64) error { return v.P.Reorg(ctx, first) }
+func (v *VerifProcessor) IsHalted() bool                                { return v.P.isHalted() }
+func (v *VerifProcessor) Close() error                                  { return v.P.db.Close() }
+func (v *VerifProcessor) DB() *sql.DB                                   { return v.P.db }
+func (v *VerifProcessor) L1InfoTree() *tree.AppendOnlyTree              { return v.P.l1InfoTree }
+func (v *VerifProcessor) RollupExitTree() *tree.UpdatableTree           { return v.P.rollupExitTree }
+
+// Facade returns an L1InfoTreeSync around the processor (no driver): the exported query entry points with
+// their halted guards.
+func (v *VerifProcessor) Facade() *L1InfoTreeSync { return &L1InfoTreeSync{processor: v.P} }
